@@ -226,15 +226,183 @@ def inline_at(prog, body, block):
     return mir.Body(raw, prog)
 
 
+def split_arms(raw, max_blocks=1500):
+    """Arm splitting (a semantics-preserving normalisation): if the body starts by matching on the variant of a by-value
+    enum parameter, everything reachable from each arm is copied per arm, with the locals assigned inside the copy renamed
+    per arm. A tail shared by the arms (`let (a, b, c) = match self { .. }; runner(a, b, c)`) then appears once per arm
+    with that arm's own values, which is how per-arm rules read it. Returns a new raw body or the input."""
+    blocks = raw["blocks"]
+    nargs = raw["arg_count"]
+    # the first switch on discriminant(param)
+    sb = None
+    for b, blk in enumerate(blocks):
+        t = blk["term"]
+        if blk["cleanup"] or t["k"] != "switch" or len(t["targets"]) < 2:
+            continue
+        p = mir.op_place(t["op"])
+        if p is None or p["p"]:
+            continue
+        for st in reversed(blk["stmts"]):
+            if st["k"] == "assign" and not st["place"]["p"] and st["place"]["l"] == p["l"] and "discr" in st.get("rv", {}):
+                src = st["rv"]["discr"]
+                if 1 <= src["l"] <= nargs and not src["p"]:
+                    sb = b
+                break
+        if sb is not None:
+            break
+    if sb is None:
+        return raw
+
+    def succs(b):
+        t = blocks[b]["term"]
+        k = t["k"]
+        if k == "goto":
+            return [t["t"]]
+        if k == "switch":
+            return [bb for _, bb in t["targets"]] + [t["otherwise"]]
+        if k in ("call", "drop", "assert"):
+            return [t["t"]] if t.get("t") is not None else []
+        return []
+
+    def region(start):
+        seen, st = set(), [start]
+        while st:
+            x = st.pop()
+            if x in seen or blocks[x]["cleanup"]:
+                continue
+            seen.add(x)
+            st.extend(succs(x))
+        return seen
+    arms = [bb for _, bb in blocks[sb]["term"]["targets"]]
+    regions = [region(a) for a in arms]
+    if sb in set().union(*regions) or sum(len(r) for r in regions) > max_blocks:
+        return raw      # the match is inside a loop, or too big
+    shared = set()
+    for i in range(len(regions)):
+        for j in range(i + 1, len(regions)):
+            shared |= regions[i] & regions[j]
+    if not shared:
+        return raw      # nothing is shared between arms: already in per-arm form
+    out = copy.deepcopy(raw)
+    nb = out["blocks"]
+    nloc = out["locals"]
+    new_targets = []
+    for ai, (arm, reg) in enumerate(zip(arms, regions)):
+        # locals assigned (or call-destinations) inside the region get a fresh copy for this arm
+        assigned = set()
+        for b in reg:
+            for st in blocks[b]["stmts"]:
+                if st["k"] == "assign" and not st["place"]["p"]:
+                    assigned.add(st["place"]["l"])
+            t = blocks[b]["term"]
+            if t["k"] == "call" and not t["dest"]["p"]:
+                assigned.add(t["dest"]["l"])
+        assigned = {l for l in assigned if l > nargs and l != 0}
+        lmap = {}
+        for l in sorted(assigned):
+            lmap[l] = len(nloc)
+            nloc.append(dict(raw["locals"][l]))
+        bmap = {b: len(nb) + k for k, b in enumerate(sorted(reg))}
+
+        def rl(p):
+            q = {"l": lmap.get(p["l"], p["l"]), "p": []}
+            for e in p["p"]:
+                if isinstance(e, dict) and "index" in e:
+                    e = dict(e, index=lmap.get(e["index"], e["index"]))
+                q["p"].append(e)
+            return q
+
+        def ro(op):
+            if op is None:
+                return op
+            if "copy" in op:
+                return {"copy": rl(op["copy"])}
+            if "move" in op:
+                return {"move": rl(op["move"])}
+            return op
+
+        def rrv(rv):
+            rv = copy.deepcopy(rv)
+            if "use" in rv:
+                rv["use"] = ro(rv["use"])
+            elif "ref" in rv:
+                rv["ref"] = rl(rv["ref"])
+            elif "rawptr" in rv:
+                rv["rawptr"] = rl(rv["rawptr"])
+            elif "cast" in rv:
+                rv["cast"]["op"] = ro(rv["cast"]["op"])
+            elif "discr" in rv:
+                rv["discr"] = rl(rv["discr"])
+            elif "bin" in rv:
+                rv["bin"]["l"] = ro(rv["bin"]["l"])
+                rv["bin"]["r"] = ro(rv["bin"]["r"])
+            elif "un" in rv:
+                rv["un"]["x"] = ro(rv["un"]["x"])
+            elif "agg" in rv:
+                rv["agg"]["ops"] = [ro(o) for o in rv["agg"]["ops"]]
+            return rv
+        for b in sorted(reg):
+            blk = blocks[b]
+            c = {"cleanup": False, "stmts": [], "orig": b, "arm": ai}
+            if "file" in blk:
+                c["file"] = blk["file"]
+            for st in blk["stmts"]:
+                st2 = dict(st)
+                if "place" in st2:
+                    st2["place"] = rl(st2["place"])
+                if "rv" in st2:
+                    st2["rv"] = rrv(st2["rv"])
+                c["stmts"].append(st2)
+            t = dict(blk["term"])
+            k = t["k"]
+            m = lambda x: bmap.get(x, x)
+            if k == "goto":
+                t["t"] = m(t["t"])
+            elif k == "switch":
+                t["op"] = ro(t["op"])
+                t["targets"] = [[v, m(bb)] for v, bb in t["targets"]]
+                t["otherwise"] = m(t["otherwise"])
+            elif k == "call":
+                t["func"] = ro(t["func"]) if ("copy" in t["func"] or "move" in t["func"]) else t["func"]
+                t["args"] = [ro(a) for a in t["args"]]
+                t["dest"] = rl(t["dest"])
+                t["t"] = m(t["t"]) if t.get("t") is not None else None
+                t["unwind"] = None
+            elif k == "drop":
+                t["place"] = rl(t["place"])
+                t["t"] = m(t["t"])
+                t["unwind"] = None
+            elif k == "assert":
+                t["cond"] = ro(t["cond"])
+                t["t"] = m(t["t"])
+                t["unwind"] = None
+            c["term"] = t
+            nb.append(c)
+        new_targets.append(bmap[arm])
+    st = nb[sb]["term"]
+    st["targets"] = [[v, nt] for (v, _), nt in zip(st["targets"], new_targets)]
+    out["arm_split"] = {"switch": sb, "arms": len(arms)}
+    return out
+
+
 def inlined_facts(facts, vocab=None):
     """returns (facts2, info) where facts2 is the helper-inlined view, or (None, info) when there is nothing to inline"""
     vocab = vocab if vocab is not None else load_vocab()
     prog = mir.Program(facts)
     helpers = new_helpers(prog, vocab)
-    info = {"new_helpers": sorted(mir.strip_generics(p) for p in helpers), "inlined_sites": 0, "dropped": []}
-    if not helpers:
-        return None, info
+    info = {"new_helpers": sorted(mir.strip_generics(p) for p in helpers), "inlined_sites": 0, "dropped": [], "arm_split": []}
     raws = {b["path"]: copy.deepcopy(b) for b in facts["bodies"]}
+    # arm splitting of the Command::apply impls (shared tails after a match on the command's variant)
+    for path, raw in list(raws.items()):
+        if raw.get("name") == "apply" and (raw.get("impl_trait") or "").endswith("world::Command"):
+            r2 = split_arms(raw)
+            if r2 is not raw:
+                raws[path] = r2
+                info["arm_split"].append(mir.strip_generics(path))
+    if not helpers and not info["arm_split"]:
+        return None, info
+    if not helpers:
+        return dict(facts, bodies=list(raws.values())), info
     for depth in range(MAX_DEPTH):
         changed = False
         cur = mir.Program(dict(facts, bodies=list(raws.values())))
